@@ -150,6 +150,18 @@ def _decoded_graphs(c, n):
     return out
 
 
+def _edit_histories(c, jobs, share):
+    """A share of the encode jobs reach their graph by an in-place edit of a live object that has been queried and encoded
+    before (drive._edited_graph): one variable of the graph was spelled differently until then."""
+    for name, kw in jobs:
+        if name == 'tr_encode' and kw.get('tr') and c.rng.random() < share:
+            vs = sorted({t[0] for t in kw['tr'] if isinstance(t[0], str)})
+            if vs:
+                kw['prior'] = c.rng.choice(vs)
+        if name == 'tr_encode' and kw.get('epi') and c.rng.random() < share:
+            kw['copied'] = c.rng.choice(['deepcopy', 'pickle'])     # markers that are equal to, but not identical with, the module's
+
+
 def check_C03(c):
     c.mc('MC_Configure', _q(c, 'MC_Configure_q.cfg', 'MC_Configure_t.cfg'), workers=16, heap='8g')
     jobs = []
@@ -167,6 +179,7 @@ def check_C03(c):
         perm = list(range(len(tr)))
         c.rng.shuffle(perm)
         jobs.append(('tr_encode', dict(tr=[tr[i] for i in perm], epi=[epi[i] for i in perm], topreq=c.rng.choice(vs) if vs else None, **mk)))
+    _edit_histories(c, jobs, 0.15)
     traces = pmake(jobs)
     c.judge('J_Layout', traces, 'encode', nontrivial=lambda t: len(t['g']['tr']) >= 3)
     c.rule = ('random well-formed weakly connected graphs (1-8 variables, symbol/string/int/float/None constants incl. 0, 0.0, -1, '
@@ -195,6 +208,7 @@ def check_C06(c):
                 k = c.rng.randrange(len(tr))
                 epi[k].append(c.rng.choice([{'m': 'pop', 'v': ''}, {'m': 'push', 'v': c.rng.choice(vs)}]))
         jobs.append(('tr_encode', dict(tr=tr, epi=epi, topreq=c.rng.choice(vs + [None, 'k']), xtop=c.rng.choice([None, None] + vs))))
+    _edit_histories(c, jobs, 0.2)
     traces = pmake(jobs)
     c.judge('J_Layout', traces, 'encode', nontrivial=lambda t: len(t['g']['tr']) >= 3)
     _stepwise(c, _q(c, 400, 6000))
